@@ -44,9 +44,12 @@ def key_records(fams: dict[str, dict[int, dict]], kinds: dict[str, dict],
         by_export: dict[str, dict] = {}
         for s in seeds:
             r = fams[fid][s]
-            sig = json.dumps([r["nodes"], r["roots"]], sort_keys=True)
+            sig = r["export_sha"]
             rec = by_export.get(sig)
             if rec is None:
+                if r["nodes"] is None:
+                    raise MachineryError(f"family {fid}: the export of seed={s} differs "
+                                         f"from that of seed={seeds[0]}")
                 k = kinds[r["kind"]]
                 rec = {"id": fid if not by_export else f"{fid}#{len(by_export)}",
                        "rel": "keys", "kind": r["kind"], "ctx": r["ctx"],
@@ -66,10 +69,12 @@ def key_records(fams: dict[str, dict[int, dict]], kinds: dict[str, dict],
     return records
 
 
-def judge(run: Run, records: list[dict], stats: dict, what: str) -> None:
+def validate(records: list[dict], stats: dict, what: str) -> dict[str, tuple[dict, dict]]:
+    """-> failing families: id -> (light record, failures)"""
     t0 = time.time()
-    val = tlcx.validate("PtKey", "PtKey.cfg", records, timeout=2400, per_shard=30)
-    stats["wall_tlc_s"] = stats.get("wall_tlc_s", 0) + round(time.time() - t0, 1)
+    val = tlcx.validate("PtKey", "PtKey.cfg", records, timeout=2400, per_shard=30,
+                        heap="3g")
+    stats["wall_tlc_s"] = round(stats.get("wall_tlc_s", 0) + time.time() - t0, 1)
     stats["states"] += val.states
     stats["transitions"] += val.transitions
     per_family = {}
@@ -81,8 +86,18 @@ def judge(run: Run, records: list[dict], stats: dict, what: str) -> None:
             raise MachineryError(
                 f"{what} {rec['id']}: {v}: {str(val.detail.get(rec['id']))[:600]} -- the "
                 "harness did not build what the model describes")
-        per_family[rec["id"]] = (rec, c04.family_failures(rec, val.detail[rec["id"]]))
+        lt = {k: rec[k] for k in ("id", "kind", "ctx", "names", "seeds", "errors")}
+        per_family[rec["id"]] = (lt, c04.family_failures(rec, val.detail[rec["id"]]))
+    return per_family
+
+
+def report(run: Run, per_family: dict[str, tuple[dict, dict]], stats: dict, what: str
+           ) -> None:
     stats[f"{what}_failing"] = len(per_family)
+    if what == "programs":
+        from checks import c18prog
+        c18prog.report(run, per_family)
+        return
     for f in c04.attribute(per_family):
         errs = [e for fid, (rec, _) in per_family.items() for e in rec.get("errors", [])][:1]
         run.violation(f["key"],
@@ -113,30 +128,36 @@ def main(tier: str, only: dict | None = None) -> int:
     if only is not None and only.get("check") == "families":
         cases = [c for c in cases if c["kind"] == only["kind"]
                  and (c["ctx"] == only["ctx"] or len(c["ctx"]) < 2)]
-    records: list[dict] = []
+    records: list[dict] = []        # light records (no node lists)
     if only is None or only.get("check") == "families":
-        t0 = time.time()
+        failing: dict[str, tuple[dict, dict]] = {}
+        stats["wall_eval_s"] = 0
         with Pool(seeds, T["per_seed"]) as pool:
-            fams = c04.eval_families(pool, seeds, T["per_seed"], cases, kinds,
-                                     want_keys=True)
-        stats["wall_eval_s"] = round(time.time() - t0, 1)
-        records = key_records(fams, kinds, seeds)
-        judge(run, records, stats, "families")
+            for b0 in range(0, len(cases), 1600):
+                t0 = time.time()
+                fams = c04.eval_families(pool, seeds, T["per_seed"], cases[b0:b0 + 1600],
+                                         kinds, want_keys=True)
+                full = key_records(fams, kinds, seeds)
+                stats["wall_eval_s"] = round(stats["wall_eval_s"] + time.time() - t0, 1)
+                failing.update(validate(full, stats, "families"))
+                records += [{k: r[k] for k in ("id", "kind", "names", "roots", "seeds", "obs")}
+                            for r in full]
+        report(run, failing, stats, "families")
     prog_records: list[dict] = []
     if only is None or only.get("check") == "programs":
         from checks import c18prog
         t0 = time.time()
-        prog_records = c18prog.program_records(seeds, T, only)
+        prog_records = c18prog.program_records(seeds, T, only, tier)
         stats["wall_prog_eval_s"] = round(time.time() - t0, 1)
-        judge(run, prog_records, stats, "programs")
+        report(run, validate(prog_records, stats, "programs"), stats, "programs")
     allrec = records + prog_records
     nkeys = sum(len(r["obs"]) * len(r["names"]) * 2 for r in allrec)
     run.coverage.update({
         "states": stats["states"], "transitions": stats["transitions"],
         "traces_validated_against_impl": sum(len(r["obs"]) for r in allrec),
         "evaluations": nkeys,
-        "distinct_nontrivial": sum(len(r["names"]) * (len(r["names"]) - 1) // 2
-                                   for r in allrec),
+        "distinct_nontrivial": sum(1 for r in allrec for i in range(len(r["roots"]))
+                                   for j in range(i) if r["roots"][i] != r["roots"][j]),
         "rule": "one unordered pair of distinct members per family (node kind x context, "
                 "or program); distinct by (family, member pair); non-trivial = the members "
                 "are different objects",
@@ -144,6 +165,7 @@ def main(tier: str, only: dict | None = None) -> int:
         "families": len(records), "programs": len(prog_records),
         "keys_computed": nkeys, "seeds": seeds,
         "node_kinds": len({r["kind"] for r in records}),
+        "programs_whole": len(prog_records),
         **{k: v for k, v in stats.items() if k not in ("states", "transitions")},
         "scope": "every concrete node class x every dataclass field x contexts of depth "
                  "0, 1 and 2; wrapped data: same contents in another object, one element "
